@@ -234,9 +234,16 @@ class P:
     def postfix(self):
         e = self.primary()
         while True:
+            if self.at(".") and self.peek(1)[0] == "num" and self.peek(1)[1] in ("0", "1", "2"):
+                self.next()
+                e = ("field", e, self.next()[1])
+                continue
             if self.at(".") and self.peek(1)[0] == "id":
                 self.next()
                 name = self.next()[1]
+                if self.at("::") and self.peek(1)[1] == "<":      # turbofish: skipped
+                    self.next()
+                    self.skip_generics()
                 if self.at("("):
                     e = ("mcall", e, name, self.args())
                 else:
@@ -247,8 +254,27 @@ class P:
                 continue
             return e
 
+    def skip_generics(self):
+        self.eat("<")
+        depth = 1
+        while depth > 0:
+            t = self.next()[1]
+            if t == "<":
+                depth += 1
+            elif t == ">":
+                depth -= 1
+            elif t == ">>":
+                depth -= 2
+            elif t == "":
+                raise Unsupported("unterminated generics")
+
     def primary(self):
         k, v = self.peek()
+        if v == "return":
+            self.next()
+            if self.at(";") or self.at("}"):
+                return ("return", None)
+            return ("return", self.expr())
         if k == "num":
             self.next()
             return ("num", v)
@@ -331,6 +357,9 @@ class P:
             path = v
             while self.at("::"):
                 self.next()
+                if self.at("<"):
+                    self.skip_generics()
+                    continue
                 path += "::" + self.next()[1]
             return ("path", path)
         raise Unsupported(f"expression at {v!r}")
@@ -350,7 +379,14 @@ class P:
                 self.next()
                 path += "::" + self.next()[1]
             if self.at("("):
-                raise Unsupported("match pattern with arguments")
+                if path != "Some":
+                    raise Unsupported("match pattern with arguments")
+                self.next()
+                inner = self.next()
+                if inner[0] != "id":
+                    raise Unsupported("match pattern binder")
+                self.eat(")")
+                return ("Some", inner[1])
             return path
         raise Unsupported(f"match pattern {v!r}")
 
@@ -449,9 +485,7 @@ def assigned_outer(node, bound=frozenset()):
             if x[3] is not None:
                 walk(x[3], bound)
         elif k == "closure":
-            inner = assigned_outer(x[2], frozenset(set(bound) | set(n for q in x[1] for n in pat_names(q, []))))
-            if inner:
-                raise Unsupported("nested closure that assigns")
+            walk(x[2], set(bound) | set(n for q in x[1] for n in pat_names(q, [])))
         elif k == "for":
             walk(x[2], bound)
             walk(x[3], set(bound) | set(pat_names(x[1], [])))
@@ -463,6 +497,9 @@ def assigned_outer(node, bound=frozenset()):
             walk(x[2], bound); walk(x[3], bound)
         elif k in ("paren", "neg", "not", "cast", "field", "ref"):
             walk(x[1], bound)
+        elif k == "return":
+            if x[1] is not None:
+                walk(x[1], bound)
         elif k == "mcall":
             walk(x[1], bound)
             for a in x[3]:
@@ -629,6 +666,59 @@ class Emit:
                     return f"({a} {'&&' if op[0] == '&' else '||'} {b})", "Bool"
                 raise Unsupported("boolean operator on non-booleans")
             raise Unsupported(f"operator {op}")
+        if k == "mcall" and self.loop_kind(e) is not None:
+            t, ty = self.loop(e, env, [], expect)
+            return ("(" + t + ")" if "\n" not in t else "(\n" + indent(t) + ")"), ty
+        if (k == "mcall" and e[2] in ("vmean", "vstd", "vskew") and e[1][0] == "mcall" and e[1][2] == "map"
+                and len(e[1][3]) == 1 and e[1][3][0][0] == "closure" and e[1][1][0] == "paren"
+                and e[1][1][1][0] == "bin" and e[1][1][1][1] in ("..=", "..")):
+            # `(a..=b).map(|j| …).vmean()`: the aggregation of agg.rs (regenerated in GenAgg.lean) over the
+            # mapped index range
+            rng, cl = e[1][1][1], e[1][3][0]
+            a, ta = self.ex0(rng[2], env)
+            b, tb = self.ex0(rng[3], env)
+            if ta != "Nat" or tb != "Nat" or len(cl[1]) != 1 or cl[1][0][0] != "pvar":
+                raise Unsupported("mapped range shape")
+            n_txt = f"({b} + 1 - {a})" if rng[1] == "..=" else f"({b} - {a})"
+            env2 = dict(env)
+            env2[cl[1][0][1]] = "Nat"
+            if [o for o in assigned_outer(cl[2]) if o in env]:
+                raise Unsupported("mapped range closure assigns")
+            btxt, bty = self.effect(cl[2], env2, [], "OptF")
+            if bty == "Rat":
+                btxt, bty = f"some ({btxt})", "OptF"
+            if bty != "OptF":
+                raise Unsupported(f"mapped range element {bty}")
+            args = []
+            for x in e[3]:
+                at, aty = self.ex0(x, env)
+                if aty != "Nat":
+                    raise Unsupported("aggregation argument")
+                args.append(at)
+            body = "(\n" + indent(btxt) + ")"
+            return (f"(GenAgg.{e[2]}.run sqrt ((List.range' {a} {n_txt}).map fun {lname(cl[1][0][1])} => {body})"
+                    + "".join(" " + x for x in args) + ")"), "OptF"
+        if k == "field":
+            t, ty = self.ex0(e[1], env)
+            if not (isinstance(ty, tuple) and ty[0] == "tuple"):
+                raise Unsupported("field of a non-tuple")
+            i = int(e[2])
+            n = len(ty[1])
+            if i >= n:
+                raise Unsupported("tuple field out of range")
+            proj = ".2" * i + (".1" if i < n - 1 else "")
+            return f"{t}{proj}", ty[1][i]
+        if k == "mcall" and e[1] == ("path", "self") and e[2] in getattr(self, "siblings", {}):
+            lean_name, ret_ty, nparams = self.siblings[e[2]]
+            if len(e[3]) != nparams:
+                raise Unsupported("sibling call arity")
+            args = []
+            for a in e[3]:
+                at, aty = self.ex0(a, env)
+                if aty != "Nat":
+                    raise Unsupported("sibling call argument")
+                args.append(at)
+            return f"({lean_name} sqrt xs" + "".join(" " + a for a in args) + ")", ret_ty
         if k == "mcall" and e[1][0] == "path" and e[1][1] in ("self", "other") and e[1][1] not in env:
             name, args = e[2], e[3]
             series = "xs" if e[1][1] == "self" else "ys"
@@ -700,6 +790,17 @@ class Emit:
                 if tr == "Rat":
                     return "true", "Bool"
                 raise Unsupported(f".not_none() on {tr}")
+            if name == "sqrt" and not args and tr == "OptF":
+                return f"({r}.map sqrt)", "OptF"
+            if name in ("into_cast",) and not args:
+                return r, tr
+            if name in ("max_with", "min_with") and len(args) == 1:
+                a, ta = self.ex0(args[0], env)
+                if ta == tr == "Nat":
+                    return f"({'maxWithNat' if name == 'max_with' else 'minWithNat'} {r} {a})", "Nat"
+                if ta == tr == "Rat":
+                    return f"({'maxWith' if name == 'max_with' else 'minWith'} {r} {a})", "Rat"
+                raise Unsupported(f"{name} operand types")
             if name == "sqrt" and not args and tr == "Rat":
                 return f"sqrt {r}" if e[1][0] in ("paren", "path") else f"sqrt ({r})", "Rat"
             if name == "powi" and len(args) == 1 and tr == "Rat":
@@ -732,6 +833,8 @@ class Emit:
         if k == "call":
             if re.fullmatch(r"(\w+::)*zero", e[1]) and not e[2]:
                 return "(0 : Rat)", "Rat"
+            if re.fullmatch(r"(\w+::)*none", e[1]) and not e[2]:
+                return "none", "OptF"
             if e[1] == "Some" and len(e[2]) == 1:
                 a, ta = self.ex0(e[2][0], env)
                 if ta == "Nat":
@@ -766,6 +869,31 @@ class Emit:
         k = e[0]
         if k == "block":
             return self.stmts(e[1], e[2], dict(env), outs, expect)
+        if k == "match" and any(isinstance(q, tuple) or q == "None" for pats, _ in e[2] for q in pats):
+            stxt, sty = self.ex0(e[1], env)
+            if sty not in ("Elem", "OptNat", "OptF"):
+                raise Unsupported("option match on a non-option")
+            arms, tys = [], []
+            for pats, body in e[2]:
+                if len(pats) != 1:
+                    raise Unsupported("or-pattern in an option match")
+                q = pats[0]
+                env_b = dict(env)
+                if q == "None":
+                    ptxt = "none"
+                elif isinstance(q, tuple) and q[0] == "Some":
+                    env_b[q[1]] = "Nat" if sty == "OptNat" else "Rat"
+                    ptxt = f"some {lname(q[1])}"
+                elif q == "_":
+                    ptxt = "_"
+                else:
+                    raise Unsupported("option match pattern")
+                btxt, bty = self.stmts(body[1], body[2], env_b, outs, expect)
+                arms.append((ptxt, btxt))
+                tys.append(bty)
+            if any(t != tys[0] for t in tys):
+                raise Unsupported("match arms of different types")
+            return f"match {stxt} with\n" + "\n".join(f"| {p_} =>\n{indent(b_)}" for p_, b_ in arms), tys[0]
         if k == "match":
             stxt, sty = self.ex0(e[1], env)
             if sty != "Ord":
@@ -788,6 +916,8 @@ class Emit:
                 raise Unsupported("non-exhaustive match")
             # a named selector instead of an anonymous `match`: lemmas about it are reusable
             return (f"ordCases {stxt}\n" + "\n".join("  (" + sel[c].replace("\n", "\n   ") + ")" for c in (".lt", ".eq", ".gt"))), tys[0]
+        if k == "mcall" and self.loop_kind(e) is not None:
+            return self.loop(e, env, outs, expect)
         if k == "for":
             pat, it, body = e[1], e[2], e[3]
             if pat[0] != "pvar" or it[0] != "bin" or it[1] not in ("..=", ".."):
@@ -808,6 +938,22 @@ class Emit:
             return (f"List.foldl (fun {acc if len(outs) > 1 else acc} {lname(pat[1])} =>\n{indent(btxt)})\n  {acc} (List.range' {a} {n_txt})"), None
         if k == "if":
             c = e[1]
+            cc = c[1] if c[0] == "paren" else c
+            if (cc[0] == "bin" and cc[1] in ("&&", "&") and cc[2][0] == "mcall" and cc[2][2] == "not_none"
+                    and cc[2][1][0] == "path" and env.get(cc[2][1][1]) == "OptF" and e[3] is None):
+                x = cc[2][1][1]
+                env_t = dict(env)
+                env_t[x] = "Rat"
+                ctxt, cty = self.ex0(cc[3], env_t)
+                if cty != "Bool":
+                    raise Unsupported("condition is not boolean")
+                t_txt, t_ty = self.stmts(e[2][1], e[2][2], env_t, outs, None)
+                if t_ty is not None:
+                    raise Unsupported("valued guarded block")
+                keep = tuple_txt([f"(some {lname(o)})" if o == x else lname(o) for o in outs])
+                rew = f"let {tuple_txt([lname(o) for o in outs])} :=\n{indent(t_txt)}\n{keep}" if x in outs else t_txt
+                none_t = tuple_txt([lname(o) for o in outs])
+                return (f"match {lname(x)} with\n| some {lname(x)} =>\n  if {ctxt} then\n{indent(rew, 4)}\n  else\n    {keep}\n| none =>\n  {none_t}"), None
             guard = self.null_guard(c, env)
             if guard is not None:
                 names = guard
@@ -839,6 +985,10 @@ class Emit:
             if p[0] != "psome":
                 raise Unsupported("if let pattern")
             stxt, sty = self.ex0(scrut, env)
+            if sty == "OptNat":
+                sty = ("opt", "Nat")
+            elif sty == "Elem":
+                sty = ("opt", "Rat")
             if not (isinstance(sty, tuple) and sty[0] == "opt"):
                 raise Unsupported("if let on a non-option")
             env_t = dict(env)
@@ -878,6 +1028,88 @@ class Emit:
         if isinstance(a, tuple) and isinstance(b, tuple) and a[0] == b[0] == "tuple" and len(a[1]) == len(b[1]):
             return ("tuple", tuple(self.wider(x, y) for x, y in zip(a[1], b[1])))
         raise Unsupported(f"no common type for {a} and {b}")
+
+    def ends_with_return(self, blk):
+        if blk[2] is not None and blk[2][0] == "return":
+            return True
+        return bool(blk[1]) and blk[1][-1][0] == "expr" and blk[1][-1][1][0] == "return"
+
+    def loop_kind(self, e):
+        """self.vapply_n(cl) | self.vfold_n(init, cl) | self.vfold(init, cl) |
+        self.into_iter().for_each(cl) | self.into_iter().zip(other).for_each(cl)"""
+        if e[0] != "mcall":
+            return None
+        recv, name, args = e[1], e[2], e[3]
+        if recv == ("path", "self") and name == "vapply_n" and len(args) == 1 and args[0][0] == "closure":
+            return "vapply_n"
+        if recv == ("path", "self") and name in ("vfold_n", "vfold") and len(args) == 2 and args[1][0] == "closure":
+            return name
+        if name == "for_each" and len(args) == 1 and args[0][0] == "closure":
+            if recv == ("mcall", ("path", "self"), "into_iter", []):
+                return "for_each"
+            if (recv[0] == "mcall" and recv[2] == "zip" and recv[1] == ("mcall", ("path", "self"), "into_iter", [])
+                    and recv[3] == [("path", "other")]):
+                return "for_each2"
+        return None
+
+    def loop(self, e, env, outs, expect):
+        kind = self.loop_kind(e)
+        cl = e[3][-1]
+        acc = tuple_txt([lname(o) for o in outs]) if outs else "()"
+        accpat = acc if outs else "(_ : Unit)"
+
+        def projs(base, k):
+            """components of a right-nested k-tuple"""
+            if k == 1:
+                return [base]
+            return [base + ".2" * i + (".1" if i < k - 1 else "") for i in range(k)]
+        if kind == "vapply_n":
+            if len(cl[1]) != 1 or cl[1][0][0] != "pvar":
+                raise Unsupported("vapply_n closure")
+            env_b = dict(env)
+            env_b[cl[1][0][1]] = "Rat"
+            btxt, bty = self.stmts(cl[2][1], cl[2][2], env_b, outs, None)
+            if bty is not None:
+                raise Unsupported("valued vapply_n closure")
+            call = f"vapplyN (fun {accpat} {lname(cl[1][0][1])} =>\n{indent(btxt)})\n  {acc} xs"
+            parts = projs("r__.1", len(outs)) if outs else []
+            return f"let r__ := {call}\n{tuple_txt(parts + ['r__.2'])}", "Nat"
+        if kind in ("for_each", "for_each2"):
+            env_b = dict(env)
+            p0 = cl[1][0] if len(cl[1]) == 1 else None
+            if kind == "for_each":
+                if p0 is None or p0[0] != "pvar":
+                    raise Unsupported("for_each closure")
+                env_b[p0[1]] = "Elem"
+                ptxt = lname(p0[1])
+                src = "xs"
+            else:
+                if p0 is None or p0[0] != "ptuple" or len(p0[1]) != 2 or any(q[0] != "pvar" for q in p0[1]):
+                    raise Unsupported("zip for_each closure")
+                for q in p0[1]:
+                    env_b[q[1]] = "Elem"
+                ptxt = "(" + ", ".join(lname(q[1]) for q in p0[1]) + ")"
+                src = "(xs.zip ys)"
+            btxt, bty = self.stmts(cl[2][1], cl[2][2], env_b, outs, None)
+            if bty is not None:
+                raise Unsupported("valued for_each closure")
+            return f"List.foldl (fun {accpat} {ptxt} =>\n{indent(btxt)})\n  {acc} {src}", None
+        # vfold / vfold_n: pure accumulator closures
+        if outs:
+            raise Unsupported("vfold closure that assigns captured variables")
+        if len(cl[1]) != 2 or any(q[0] != "pvar" for q in cl[1]):
+            raise Unsupported("vfold closure")
+        itxt, ity = self.ex(e[3][0], env, "Elem" if e[3][0] == ("path", "None") else None)
+        env_b = dict(env)
+        env_b[cl[1][0][1]] = ity
+        env_b[cl[1][1][1]] = "Rat"
+        btxt, bty = self.effect(cl[2], env_b, [], ity if ity in ("Elem", "OptF") else None)
+        if bty != ity:
+            raise Unsupported(f"vfold closure result {bty} for accumulator {ity}")
+        fn = "vfoldN" if kind == "vfold_n" else "vfold"
+        body = "(" + btxt + ")" if "\n" not in btxt else "(\n" + indent(btxt) + ")"
+        txt = f"{fn} (fun {lname(cl[1][0][1])} {lname(cl[1][1][1])} => {body}) {itxt} xs"
+        return txt, (("tuple", ("Nat", ity)) if kind == "vfold_n" else ity)
 
     def null_guard(self, c, env):
         """`a.not_none()` or `a.not_none() && b.not_none()` over nullable elements -> [names]"""
@@ -975,7 +1207,29 @@ class Emit:
             elif s[0] == "expr":
                 e = s[1]
                 inner = [o for o in assigned_outer(e) if o in env]
-                if e[0] not in ("if", "iflet", "block", "match", "for"):
+                if e[0] == "return":
+                    if e[1] is None:
+                        raise Unsupported("bare return")
+                    txt, ty = self.ex(e[1], env, expect)
+                    lines.append(tuple_txt([lname(o) for o in outs] + [txt]))
+                    return "\n".join(lines), ty
+                if e[0] == "if" and e[3] is None and self.ends_with_return(e[2]):
+                    # `if c { …; return X; }` followed by the rest of the block
+                    ctxt, cty = self.ex0(e[1], env)
+                    if cty != "Bool":
+                        raise Unsupported("condition is not boolean")
+                    idx = ss.index(s)
+                    r_txt, r_ty = self.stmts(e[2][1], e[2][2], dict(env), outs, expect)
+                    rest_txt, rest_ty = self.stmts(ss[idx + 1:], tail, dict(env), outs, expect)
+                    if r_ty != rest_ty:
+                        want = self.wider(r_ty, rest_ty)
+                        r_txt, r_ty = self.stmts(e[2][1], e[2][2], dict(env), outs, want)
+                        rest_txt, rest_ty = self.stmts(ss[idx + 1:], tail, dict(env), outs, want)
+                        if r_ty != rest_ty:
+                            raise Unsupported(f"early return of {r_ty} in a block of {rest_ty}")
+                    lines.append(f"if {ctxt} then\n{indent(r_txt)}\nelse\n{indent(rest_txt)}")
+                    return "\n".join(lines), rest_ty
+                if e[0] not in ("if", "iflet", "block", "match", "for") and self.loop_kind(e) is None:
                     raise Unsupported("expression statement")
                 if not inner:
                     continue            # no effect on the state
@@ -991,8 +1245,10 @@ class Emit:
                 txt, ty0 = self.effect(tail, env, inner, None)
                 lines.append(f"let {tuple_txt([lname(o) for o in inner])} :=\n{indent(txt)}")
             tail = None
+        if tail is not None and tail[0] == "return":
+            tail = tail[1]
         if tail is not None:
-            if tail[0] in ("if", "iflet", "block"):
+            if tail[0] in ("if", "iflet", "block", "match"):
                 inner = [o for o in assigned_outer(tail) if o in env]
                 if inner:
                     txt, ty = self.effect(tail, env, inner, expect)
@@ -1064,8 +1320,9 @@ def translate_idx_fn(name, body_src, sig_src):
         tail = stmts[-1][1]
         stmts = stmts[:-1]
     call = tail
-    if not (call and call[0] == "mcall" and call[1] == ("path", "self") and call[2] == "rolling_apply_idx"):
+    if not (call and call[0] == "mcall" and call[1] == ("path", "self") and call[2] in ("rolling_apply_idx", "rolling2_apply_idx")):
         raise Unsupported("driver call shape")
+    two = call[2] == "rolling2_apply_idx"
     clos = [a for a in call[3] if a[0] == "closure"]
     if len(clos) != 1:
         raise Unsupported("driver call without exactly one closure")
@@ -1097,12 +1354,24 @@ def translate_idx_fn(name, body_src, sig_src):
     if not seen_mp:
         raise Unsupported("no min_periods binding")
     params = clos[1]
-    if len(params) != 3 or any(q[0] != "pvar" for q in params):
+    if len(params) != 3 or any(q[0] != "pvar" for q in params[:2]):
         raise Unsupported("closure parameters")
     cenv = dict(env)
     cenv[params[0][1]] = "OptNat"
     cenv[params[1][1]] = "Nat"
-    cenv[params[2][1]] = "Elem"
+    if two:
+        if params[2][0] != "ptuple" or len(params[2][1]) != 2 or any(q[0] != "pvar" for q in params[2][1]):
+            raise Unsupported("closure parameters")
+        for q in params[2][1]:
+            cenv[q[1]] = "Elem"
+        cur_decl = "(cur__ : Option Rat × Option Rat)"
+        cur_pat = "(" + ", ".join(lname(q[1]) for q in params[2][1]) + ")"
+    else:
+        if params[2][0] != "pvar":
+            raise Unsupported("closure parameters")
+        cenv[params[2][1]] = "Elem"
+        cur_decl = f"({lname(params[2][1])} : Option Rat)"
+        cur_pat = None
     outs = [n for n, _, _, _ in state]
     body = clos[2]
     em.nan_vars = nan_assigned(body)
@@ -1145,12 +1414,15 @@ def translate_idx_fn(name, body_src, sig_src):
     L.append("  let _ := len")
     L += prelets()
     L.append("  min_periods")
-    L.append("def driver : String := \"rolling_apply_idx\"")
+    L.append(f"def driver : String := \"{call[2]}\"")
     L.append("/-- the whole closure body, in source order; `window` is the requested window, `min_periods` the")
     L.append("value of the `let min_periods` binding -/")
-    L.append(f"def step (sqrt : Rat → Rat) (xs : List (Option Rat)) (len window min_periods : Nat){bparams} (s : St) "
-             f"({lname(params[0][1])} : Option Nat) ({lname(params[1][1])} : Nat) ({lname(params[2][1])} : Option Rat) : St × Option Rat :=")
+    ysp = " (ys : List (Option Rat))" if two else ""
+    L.append(f"def step (sqrt : Rat → Rat) (xs : List (Option Rat)){ysp} (len window min_periods : Nat){bparams} (s : St) "
+             f"({lname(params[0][1])} : Option Nat) ({lname(params[1][1])} : Nat) {cur_decl} : St × Option Rat :=")
     L.append("  let _ := sqrt; let _ := xs; let _ := len; let _ := window; let _ := min_periods")
+    if cur_pat:
+        L.append(f"  let {cur_pat} := cur__")
     L += prelets(skip_mp=True)
     for n, _, _, _ in state:
         L.append(f"  let {lname(n)} := s.{lname(n)}")
@@ -1165,7 +1437,7 @@ def translate_idx_fn(name, body_src, sig_src):
 
 
 def translate_fn(name, body_src, sig_src=""):
-    if re.search(r"self\s*\.\s*rolling_apply_idx\s*\(", body_src):
+    if re.search(r"self\s*\.\s*rolling2?_apply_idx\s*\(", body_src):
         return translate_idx_fn(name, body_src, sig_src)
     if not re.search(r"self\s*\.\s*(rolling_apply|rolling2_apply)\s*\(", body_src):
         return None
@@ -1377,7 +1649,7 @@ def free_names(node):
 
 def main():
     out = ["/- GENERATED by translator/closures.py from the Rust sources — do not edit. -/",
-           "import Tv.GenPrelude", "set_option linter.unusedVariables false", "namespace Tv.Gen", ""]
+           "import Tv.GenPrelude", "import Tv.GenAgg", "set_option linter.unusedVariables false", "namespace Tv.Gen", ""]
     m = re.search(r"pub const EPS:\s*f64\s*=\s*([0-9.eE+-]+)\s*;",
                   open(os.path.join(repo, "tea-core/src/prelude.rs"), encoding="utf-8").read())
     from fractions import Fraction
